@@ -620,9 +620,13 @@ func c04NoPrecedenceSentinel(c *Ctx, r *Report, clause string) {
 		info := f.Pkg.TypesInfo
 		// Pre := <const> … Prec: Pre
 		ast.Inspect(f.Decl.Body, func(n ast.Node) bool {
-			if as, ok := n.(*ast.AssignStmt); ok && as.Tok == token.DEFINE && len(as.Lhs) == 1 && len(as.Rhs) == 1 {
-				if v, isC := constInt(info, as.Rhs[0]); isC {
-					o := identObj(info, as.Lhs[0])
+			if as, ok := n.(*ast.AssignStmt); ok && (as.Tok == token.DEFINE || as.Tok == token.ASSIGN) && len(as.Lhs) == len(as.Rhs) {
+				for ai := range as.Lhs {
+					v, isC := constInt(info, as.Rhs[ai])
+					o := identObj(info, as.Lhs[ai])
+					if !isC || o == nil {
+						continue
+					}
 					used := false
 					ast.Inspect(f.Decl.Body, func(m ast.Node) bool {
 						if kv, ok := m.(*ast.KeyValueExpr); ok {
